@@ -32,6 +32,20 @@ def run(ctx):
         ctx.extra["spec_domain"] = "all 0 <= n < 2^28, both forms, exhaustively on the specification"
     else:
         spec_ranges(ctx, [(0, 70000), (1048576 - 5000, 1048576 + 5000), (MAXV - 20000, MAXV)])
+    # symbolic: Apalache discharges the inclusive-form theorem for ALL n with n + 4 < 2^28 (APA_PkgLen.tla)
+    import os, subprocess, time
+    t0 = time.time()
+    try:
+        r = subprocess.run(["apalache-mc", "check", "--length=0", "--inv=Inv", "--init=Init", "--next=Next",
+                            "--out-dir=" + ctx.path("apalache"), os.path.join(vlib.SPEC, "APA_PkgLen.tla")],
+                           cwd=ctx.dir, stdout=subprocess.PIPE, stderr=subprocess.STDOUT, text=True, timeout=600)
+        ok = "EXITCODE: OK" in r.stdout and "NoError" in r.stdout
+        if not ok and ("violat" in r.stdout.lower() or "EXITCODE: ERROR (12)" in r.stdout):
+            raise vlib.ToolError("Apalache refutes the PkgLength theorem of the specification: " + r.stdout[-800:])
+        ctx.extra["apalache"] = {"module": "APA_PkgLen.tla", "result": "NoError" if ok else "not run to completion",
+                                 "domain": "all n >= 0 with n + 4 <= 2^28 - 1 (symbolic)", "wall_s": round(time.time() - t0, 1)}
+    except (subprocess.TimeoutExpired, FileNotFoundError) as e:
+        ctx.extra["apalache"] = {"result": "unavailable: %s" % type(e).__name__}
     # (b) the crate's encoder through the cfg pass-through: boundaries, small values, bit patterns, random
     ns = set(range(0, 70000 if not th else 300000))
     for b in (63, 4095, 1048575, MAXV):
